@@ -2,6 +2,7 @@
 from __future__ import annotations
 
 import ast
+import collections
 import hashlib
 import os
 from dataclasses import dataclass, field
@@ -56,6 +57,8 @@ class ModuleInfo:
 
 
 _PARSE_CACHE: Dict[tuple, "ModuleInfo"] = {}  # per process; keyed by (path, mtime, size)
+_OVERLAY_CACHE: "collections.OrderedDict[tuple, ModuleInfo]" = collections.OrderedDict()  # per process; keyed by (rel, sha1 of the overlay text); LRU
+_OVERLAY_CACHE_MAX = 700
 
 
 class Repo:
@@ -82,9 +85,15 @@ class Repo:
                 path = os.path.join(dirpath, fn)
                 rel = os.path.relpath(path, self.root)
                 try:
+                    ok_ = None
                     if rel in self.overlay:
                         src = self.overlay[rel]
                         ck = None
+                        ok_ = (rel, hashlib.sha1(src.encode("utf-8", "replace")).hexdigest())
+                        if ok_ in _OVERLAY_CACHE:
+                            _OVERLAY_CACHE.move_to_end(ok_)
+                            self.modules[rel] = _OVERLAY_CACHE[ok_]
+                            continue
                     else:
                         st = os.stat(path)
                         ck = (path, st.st_mtime_ns, st.st_size)
@@ -106,6 +115,10 @@ class Repo:
                 self.modules[rel] = mi
                 if ck is not None:
                     _PARSE_CACHE[ck] = mi
+                elif ok_ is not None:
+                    _OVERLAY_CACHE[ok_] = mi
+                    while len(_OVERLAY_CACHE) > _OVERLAY_CACHE_MAX:
+                        _OVERLAY_CACHE.popitem(last=False)
 
         self._cross_module_helpers()
 
